@@ -35,6 +35,12 @@
 (* and exports the instance; on unscaled instances the symbolic analysis    *)
 (* must coincide with MinNorm's integer one (BSRefinesMinNorm).             *)
 (*                                                                         *)
+(* PRESENTATIONS AND HISTORIES (C03, section of that name): the expected     *)
+(* values belong to the VALUES (J, u); every scenario also exports the      *)
+(* dtypes in which each preference vector can be given exactly (pres) and   *)
+(* whether the instance is handed over in new tensor / aggregator objects   *)
+(* or written in place into those of the previous instance (buf).           *)
+(*                                                                         *)
 (* State machine: a matrix of the family is built entry by entry (so that   *)
 (* TLC's workers share the enumeration), then one Solve step computes the   *)
 (* result record `res`; invariants are stated on `res`; Export prints the   *)
@@ -123,6 +129,39 @@ RECURSIVE Pow4(_)
 Pow4(k) == IF k = 0 THEN 1 ELSE 4 * Pow4(k - 1)
 ScaleCmp(lam) == [i \in 1..17 |-> LET k == i - 9 IN
                     IF k >= 0 THEN Sgn(lam * Pow4(k) - 1) ELSE Sgn(lam - Pow4(-k))]
+
+-----------------------------------------------------------------------------
+(* Presentations and histories of a call (C03)                              *)
+(*                                                                         *)
+(* C03 is a statement about the VALUES a call is given: the matrix J and    *)
+(* the non-negative preference vector u.  The same values can be handed to  *)
+(* the code in several ways, and the expected weights / output of every     *)
+(* call below are those of the instance, whatever the presentation:         *)
+(*  - the preference vector as a tensor of another dtype than the matrix    *)
+(*    (a float32 or an integer tensor next to a float64 matrix, a float64   *)
+(*    one next to a float32 matrix), admissible whenever that dtype holds u *)
+(*    EXACTLY ("f64" also stands for the nearest double of a non-dyadic     *)
+(*    rational, as everywhere in the float64 replay);                       *)
+(*  - the matrix in a NEW tensor object, or written in place (copy_) into   *)
+(*    the tensor object that held the previous instance of the session;     *)
+(*    the aggregator a NEW object, or the object that already served the    *)
+(*    previous instances with the same arguments.  A session is the         *)
+(*    sequence of the scenarios of one shape in the order of their entries. *)
+
+RECURSIVE IsPow2(_)
+IsPow2(k) == k = 1 \/ (k > 1 /\ k % 2 = 0 /\ IsPow2(k \div 2))
+
+PrefDtypes == <<"f64", "f32", "i64">>
+Presentable(u, d) == CASE d = "i64" -> \A i \in DOMAIN u : u[i][2] = 1
+                       [] d = "f32" -> \A i \in DOMAIN u : IsPow2(u[i][2]) /\ Abs(u[i][1]) < 16777216
+                       [] OTHER     -> TRUE
+PrefPres(u) == SelectSeq(PrefDtypes, LAMBDA d : Presentable(u, d))
+
+BufModes == << [tensor |-> "fresh",  agg |-> "fresh"],  [tensor |-> "reused", agg |-> "reused"],
+               [tensor |-> "reused", agg |-> "fresh"],  [tensor |-> "fresh",  agg |-> "reused"] >>
+\* the mode of an instance is a function of its entries and of a salt (the harness passes its seed): over the four
+\* salts every instance is presented in every mode
+BufMode(h, salt) == BufModes[((h + salt) % 4) + 1]
 
 -----------------------------------------------------------------------------
 (* One instance                                                             *)
@@ -277,6 +316,15 @@ BracketSound == Done => /\ res.lamLo <= res.tr
                         /\ \A i \in 1..M : res.G[i][i] < res.lamLo + 1
                         /\ (res.lamInt => LamMaxGeR(res.G, R(res.lamLo)) /\ ~LamMaxGeR(res.G, Frac(2 * res.lamLo + 1, 2)))
 
+\* presentations: the float64 one always exists, an admissible one holds u exactly, and every dtype / every
+\* buffer mode occurs for every row count (non-vacuity of the replay's rotation)
+PresentationsSound ==
+    Done => /\ \A pi \in PIdx : /\ Head(PrefPres(Prefs[pi])) = "f64"
+                                /\ \A k \in DOMAIN PrefPres(Prefs[pi]) : Presentable(Prefs[pi], PrefPres(Prefs[pi])[k])
+            /\ \A k \in DOMAIN PrefDtypes : \E pi \in PIdx : \E j \in DOMAIN PrefPres(Prefs[pi]) :
+                                                 PrefPres(Prefs[pi])[j] = PrefDtypes[k]
+            /\ {BufMode(Hash(ents), salt) : salt \in 1..4} = {BufModes[k] : k \in 1..4}
+
 (* C04, MGDA: *)
 MinNormOK == Done => /\ res.mnOK
                      /\ RSign(res.mn2) >= 0
@@ -297,7 +345,9 @@ FWTwoRowsExact == (Done /\ M = 2 /\ 1 \in DOMAIN res.fw) =>
 
 Scenario == [m |-> fam.m, n |-> fam.n, J |-> res.J, tr |-> res.tr, lamLo |-> res.lamLo, lamInt |-> res.lamInt,
              conflict |-> res.conflict, prefs |-> Prefs, regeps |-> RegEpsSeq(fam.m),
-             cmp |-> ScaleCmp(res.lamLo), f2 |-> res.f2, f1 |-> res.f1, mn2 |-> res.mn2]
+             cmp |-> ScaleCmp(res.lamLo), f2 |-> res.f2, f1 |-> res.f1, mn2 |-> res.mn2,
+             pres |-> [pi \in PIdx |-> PrefPres(Prefs[pi])],
+             buf |-> [salt \in 1..4 |-> BufMode(Hash(ents), salt)]]
 
 Export == (Done /\ Hash(ents) % SampleMod = SamplePick) => PrintT(<<"SCN", ToJson(Scenario)>>)
 
